@@ -10,6 +10,7 @@ LEVEL = "proof"
 COQ_FILES = ["Tie/C13_tie.v", "Props/C13_props.v"]
 PROPS_FILES = ["C13_props.v"]
 TRUSTED_BASE = [
+    "vlib/symex.py (symbolic execution of the translated Python subset on the ast: the translator reads value / outcome trees, so local names, intermediates, helpers and the form of branches do not matter; its assumptions - pure expressions, opaque calls, no aliasing writes, try handlers not modelled - are listed in DESIGN.md 12.7; fail-closed)",
     "py2gallina unit 'chunks' (AST -> Gallina for the divmod arithmetic of direct.utils.chunks)",
     "hand-written model coq/Model/C13.v of DistributedSequentialSampler / BatchVolumeSampler / ConcatDatasetBatchSampler.batch_sampler / DistributedSampler.__iter__, tied by exact correspondence (vlib/props/c13.py)",
     "torch.utils.data.Sampler base class, Python list slicing and iteration protocol",
